@@ -115,11 +115,21 @@ TRUTHY_WRAPPERS = ("std::optional::has_value", "std::unique_ptr::operator bool",
                    "std::__shared_ptr::operator bool", "std::optional::operator bool", "std::function::operator bool")
 
 
+def _empty_atom(x, subst=None):
+    """For `obj.size()` returns the atom of `obj.empty()` (so that size()==0, size()<1, !size() and empty() coincide)."""
+    if is_expr(x) and x[0] in ("mcall", "vcall") and len(x) == 3 and isinstance(x[1], str) and x[1].endswith("::size"):
+        return atom(key(expand(["mcall", x[1][:-4] + "empty", x[2]], subst)))
+    return None
+
+
 def to_formula(e, subst=None):
     """expr -> formula. `subst` maps local names to their defining expression."""
     if not is_expr(e):
         return atom(str(e))
     t = e[0]
+    ea = _empty_atom(e, subst)
+    if ea is not None:
+        return mk_not(ea)
     if t == "bool":
         return T if e[1] else Fa
     if t == "int":
@@ -131,7 +141,7 @@ def to_formula(e, subst=None):
         return to_formula(e[1], subst)
     if t == "cast" and e[1] in ("bool",):
         return to_formula(e[2], subst)
-    if t == "local" and subst and e[1] in subst:
+    if t == "local" and subst and e[1] in subst and is_expr(subst[e[1]]):
         return to_formula(subst[e[1]], subst)
     if t == "u" and e[1] == "!":
         return mk_not(to_formula(e[2], subst))
@@ -166,6 +176,9 @@ def expand(e, subst):
     """Substitute single-definition locals inside a term."""
     if not subst or not is_expr(e):
         return e
+    idx = subst.get("@idx")
+    if idx and e[0] == "idx" and len(e) >= 3 and is_expr(e[2]) and e[2][0] == "local" and e[2][1] in idx and key(e[1]) == key(idx[e[2][1]]):
+        return ["each", expand(e[1], subst)]     # element of an index loop over the whole range == range-for element
     if e[0] == "local" and e[1] in subst:
         return expand(subst[e[1]], {k: v for k, v in subst.items() if k != e[1]})
     return [e[0]] + [expand(x, subst) if is_expr(x) else x for x in e[1:]]
@@ -176,6 +189,10 @@ def _lt(a, b):
     ka, kb = _int(a), _int(b)
     if ka is not None and kb is not None:
         return T if ka < kb else Fa
+    if kb == 1 and _empty_atom(a) is not None:        # size() < 1  ==  empty()
+        return _empty_atom(a)
+    if ka == 0 and _empty_atom(b) is not None:        # 0 < size()  ==  !empty()
+        return mk_not(_empty_atom(b))
     if kb is not None:
         return atom("%s < %d" % (key(a), kb))
     if ka is not None:                       # K < x  ==  !(x < K+1)
@@ -292,6 +309,41 @@ def _slice(premise, conclusion):
     return mk_and(keep)
 
 
+_EQ_RE = re.compile(r"^(.*) == (-?\d+|[A-Za-z_][\w]*(?:::[A-Za-z_]\w*)+)$")
+_LT_RE = re.compile(r"^(.*) < (-?\d+)$")
+
+
+def _theory(names):
+    """Arithmetic facts between atoms that a pure truth table ignores: equalities of one term with different
+    constants exclude each other; `x < K1` implies `x < K2` for K1 <= K2; `x == c` decides `x < K`."""
+    eqs, lts = {}, {}
+    for n in names:
+        m = _EQ_RE.match(n)
+        if m:
+            eqs.setdefault(m.group(1), []).append((m.group(2), n))
+        m = _LT_RE.match(n)
+        if m:
+            lts.setdefault(m.group(1), []).append((int(m.group(2)), n))
+    excl, mono = [], []
+    for lhs, lst in eqs.items():
+        for i in range(len(lst)):
+            for j in range(i + 1, len(lst)):
+                if lst[i][0] != lst[j][0]:
+                    excl.append((lst[i][1], lst[j][1]))
+        for c, n in lst:
+            if re.fullmatch(r"-?\d+", c):
+                for k, ln in lts.get(lhs, []):
+                    if int(c) < k:
+                        mono.append((n, ln))       # x == c and c < K  =>  x < K
+                    else:
+                        excl.append((n, ln))       # x == c and c >= K =>  !(x < K)
+    for lhs, lst in lts.items():
+        lst.sort()
+        for i in range(len(lst) - 1):
+            mono.append((lst[i][1], lst[i + 1][1]))
+    return excl, mono
+
+
 def counterexample(premise, conclusion):
     """An assignment making premise true and conclusion false, or None (premise => conclusion)."""
     premise = _slice(premise, conclusion)
@@ -299,8 +351,11 @@ def counterexample(premise, conclusion):
     atoms(conclusion, names)
     if len(names) > MAX_ATOMS:
         raise ValueError("too many atoms (%d) for truth-table enumeration" % len(names))
+    excl, mono = _theory(names)
     for vals in itertools.product((False, True), repeat=len(names)):
         env = dict(zip(names, vals))
+        if any(env[a] and env[b] for a, b in excl) or any(env[a] and not env[b] for a, b in mono):
+            continue        # infeasible: x == c1 && x == c2 (c1 != c2), or x < K1 && !(x < K2) with K1 <= K2
         if ev(premise, env) and not ev(conclusion, env):
             return env
     return None
